@@ -91,7 +91,7 @@ CLAIMS = {
              "American >= European binary and exactly one once reached, continuity at the branch) is enumerated over the lattice and evaluated on pfhedge.nn.functional in float64. Inequalities are decided on the lattice only.",
         note="Trusted: TLC, torch. The machine cannot evaluate erf/exp: relations between lattice points are decided by evaluating the code, not by the model; nothing is claimed between lattice points."),
     "C10": dict(
-        engine="Sim.tla + CIR.tla + Heston.tla / TLC -> path-wise replay with supplied normals; one-step moments on quadrature nodes",
+        engine="Sim.tla + CIR.tla + Heston.tla + Jump.tla / TLC -> path-wise replay with supplied normals; one-step moments on quadrature nodes",
         technique="TLA+ scheme machines (one Step(z) per time step, exact coefficient/rational domains) checked by TLC against closed forms for every sequence of supplied normals; CIR moment machine (tower law) checked against the closed-form mean-reverting mean and variance; real generators replayed on exactly those normals / on Gauss-Hermite and Gauss-Laguerre nodes",
         category=MC, design_ref="DESIGN.md 3 C10, 4",
         text="PARTIAL: decides the path-wise half of the property and the CIR/Heston variance moments. Sim.tla models Brownian, geometric Brownian, Merton (with supplied jump counts), Vasicek (exact OU transition) and local-volatility Euler "
@@ -101,7 +101,7 @@ CLAIMS = {
              "closed-form mean-reverting mean and variance from any starting value (MeanClosedForm, VarClosedForm) and that the exponential mixture reproduces m and psi m^2 (ExpBranchMatches); one real step of generate_cir and "
              "generate_heston from each lattice value is run on quadrature nodes (3 Gauss-Hermite normals: V' is quadratic in Z; 2 Gauss-Laguerre nodes mapped to uniforms; probes around the atom at zero) and its exact "
              "conditional mean and variance compared with m and s2 at 1e-9. Heston.tla: the log-price step derived from the SDE vs the coefficients k0..k4 (ImplementationIsDerivation, ReturnFollowsVarianceWithSignOfRho, "
-             "ZeroRhoDecouples), replayed into generate_heston / HestonStock on supplied normals. Sample-estimate statements (price means, Heston correlation, rough-Bergomi forward variance, jump-model log-variance) are NOT decided.",
+             "ZeroRhoDecouples), replayed into generate_heston / HestonStock on supplied normals. Jump.tla: mean and variance of one Merton / Kou step conditional on the jump count (Kou: also on the number of upward jumps, mixed by BinomialMixing), propagated by the tower law with Poisson moments to the documented log-variance (sigma^2 + lambda E[J^2]) t (LogVarianceDocumented, MeanExcessDocumented, JumpFreeIsDiffusion); the real generators are run with supplied jump counts on Gauss-Hermite / Gauss-Laguerre nodes (sizes scaled by the mean the generator's own Exponential declares, directions decided around the documented up-probability, Poisson rate = lambda dt) and the exact conditional moments compared at 1e-11. Sample-estimate statements (price means of Heston / rough Bergomi, Heston correlation size, rough-Bergomi forward variance) are NOT decided.",
         note="Trusted: TLC, torch; public torch functions (randn_like, rand_like, Poisson.sample) replaced for one call. dt is handed to the CIR generators as a float64 tensor because Python-float parameters pass through float32 inside them."),
     "C11": dict(
         engine="Market.tla / TLC -> replay on real primaries and generators",
